@@ -83,11 +83,32 @@ def gen_case(ctx: Ctx, k: int) -> dict[str, Any]:
     # outside its sound fragment there (its diagrams may depend on the order of presentation, or it may fail), so
     # those cases are judged on the saved files and on the learned model files, not on the diagrams
     reorder = k % 3 == 2
-    names = r.sample(["wf", "order flow", "Billing", "a b c", "x-1"], k=1 if reorder else r.choice([1, 2, 3]))
-    async_flag = r.random() < 0.5
+    # every sixth case: one workflow, async, whose traces differ only in HOW MANY overlapping calls of one name the
+    # root makes (1, 2 or 3): the same typed edges in every trace, different multiplicities.  Judged like the
+    # reorder cases (files and models), the diagrams carry branch counts the Lean semantics does not model.
+    fanout = k % 6 == 1
+    names = r.sample(["wf", "order flow", "Billing", "a b c", "x-1"], k=1 if (reorder or fanout) else r.choice([1, 2, 3]))
+    async_flag = True if fanout else r.random() < 0.5
     spans: list[dict[str, Any]] = []
     for i, n in enumerate(names):
-        spans += gen_workflow(r, n, k * 100 + i * 10, async_flag, reorder)
+        if fanout:
+            counts = r.sample([1, 2, 3], k=r.choice([2, 3]))
+            for t, cnt in enumerate(counts):
+                jid = f"{n}-f{t}-{k}"
+                st = T0 + (k * 100 + t) * 10**7
+                rid = f"{jid}.r"
+                mk = lambda typ, eid, a, b, par: {"job_name": n, "job_id": jid, "event_type": typ, "event_id": eid,  # noqa: E731
+                                                   "start_timestamp": str(st + a), "end_timestamp": str(st + b),
+                                                   "application_name": "app " + n, "parent_event_id": par}
+                spans.append(mk("FA", rid, 0, 9000, None))
+                for c in range(cnt):
+                    spans.append(mk("FB", f"{jid}.b{c}", 100 + 10 * c, 2000 + 10 * c, rid))     # overlapping
+                spans.append(mk("FC", f"{jid}.c", 3000, 3500, rid))
+        else:
+            spans += gen_workflow(r, n, k * 100 + i * 10, async_flag, reorder)
+    reorder = reorder or fanout     # same judging rule
+    if fanout:
+        ctx.tick("kind_fanout")
     if not reorder:
         r.shuffle(spans)    # reorder cases keep every trace in call-tree order: same stored order in every trace
     custom = r.random() < 0.5
@@ -107,7 +128,7 @@ def gen_case(ctx: Ctx, k: int) -> dict[str, Any]:
             ctx.tick("mapping_reuses_default_names")
     ctx.tick("mapping_custom" if custom else "mapping_default")
     ctx.tick("async" if async_flag else "sync")
-    ctx.tick("kind_reorder" if reorder else "kind_alternatives")
+    ctx.tick("kind_reorder_or_fanout" if reorder else "kind_alternatives")
     return {"names": names, "spans": spans, "async": async_flag, "mapping": mapping, "k": k, "reorder": reorder}
 
 
